@@ -82,7 +82,7 @@ fn run_twise(ctx: &Ctx, out: &mut dyn Write) {
     let mut rng = Rng::new(ctx.seed ^ 0x5eed_0009);
     let quick = ctx.tier != "thorough";
     let srcs = sources(ctx, &mut rng);
-    let reps = if quick { 2 } else { 3 };
+    let reps = if quick { 3 } else { 4 };
     let mut k = 0;
     for src in srcs.iter() {
         if src.n > 14 {
